@@ -2,12 +2,15 @@ package checks
 
 import (
 	"fmt"
+	"net/http"
+	"net/http/httptest"
 	"net/url"
 	"os"
 	"sort"
 	"strings"
 
 	"github.com/go-git/go-billy/v6/osfs"
+	"github.com/go-git/go-git/v6/backend"
 	"github.com/go-git/go-git/v6/plumbing"
 	"github.com/go-git/go-git/v6/plumbing/transport"
 	"github.com/go-git/go-git/v6/storage"
@@ -31,7 +34,7 @@ func runC40(c *fw.Ctx) {
 	c.Bound("segments", segs)
 	c.Bound("max_segments", maxSeg)
 	c.Bound("gitfile_contents", gitfiles)
-	c.SetRule("request paths = every sequence of <= max_segments segments joined by '/', with and without a leading '/', x strict on/off, x every gitfile content for the directory 'gf' under the root; loader = the real transport.FilesystemLoader over an mcfs view rooted at /srvroot inside a larger tree that also holds /outside/out.git and /outside/wt/.git (valid repositories); oracle: the complete mcfs journal of the Load call and of reading references/HEAD/config/objects through the returned storer - no resolved path outside /srvroot may be touched, the returned storer's filesystem root is under /srvroot, and the served repository is one of those inside the root; distinct = (outcome, resolved repository) classes")
+	c.SetRule("request paths = every sequence of <= max_segments segments joined by '/', with and without a leading '/', x strict on/off, x every gitfile content for the directory 'gf' under the root; loader = the real transport.FilesystemLoader over an mcfs view rooted at /srvroot inside a larger tree that also holds /outside/out.git and /outside/wt/.git (valid repositories); second pass on a real directory (osfs.BoundOS): the same requests plus absolute gitfile targets, prefix-sharing siblings, links inside the root that lead out of it (named directly, through a gitfile, as the .git entry), absolute request paths of the outside repositories - through Load and through the HTTP backend handler (GET <path>/info/refs, percent-decoded path, with and without a Prefix); oracle: the complete mcfs journal of the Load call and of reading references/HEAD/config/objects through the returned storer - no resolved path outside /srvroot may be touched, the returned storer's filesystem root is under /srvroot, and the served repository is one of those inside the root; distinct = (outcome, resolved repository) classes")
 	c.Assume("the content of the root directory itself is trusted (no symlinks placed inside it that point outside); mcfs resolves paths like the chroot helpers of billy (lexical confinement) and symlinks without confinement")
 	n, err := mcfs.Conformance(c.Scratch(), 2)
 	c.Must(err, "mcfs/osfs conformance")
@@ -177,6 +180,61 @@ func runC40(c *fw.Ctx) {
 		"gitdir: "+real+"/srvroot-private/secret.git\n", "gitdir: "+real+"/srvroot.git\n",
 		"gitdir: "+real+"/srvroot/../outside/out.git\n", "gitdir: "+real+"/srvroot/../srvroot-private/secret.git\n",
 		"gitdir: "+real+"/srvroot/repo.git/../../outside/out.git\n")
+	// links inside the root that lead out of it (the OS-level confinement of the base filesystem is what stops them),
+	// named directly, through a gitfile, and as the .git entry itself
+	os.Symlink("../outside/out.git", real+"/srvroot/link-out")
+	os.Symlink(real+"/outside/out.git", real+"/srvroot/link-abs")
+	os.MkdirAll(real+"/srvroot/gl", 0o755)
+	os.Symlink("../../outside/out.git", real+"/srvroot/gl/.git")
+	os.MkdirAll(real+"/srvroot/gg", 0o755)
+	os.WriteFile(real+"/outside/gitfile", []byte("gitdir: "+real+"/outside/out.git\n"), 0o644)
+	os.Symlink("../../outside/gitfile", real+"/srvroot/gg/.git")
+	realGitfiles = append(realGitfiles, "gitdir: ../link-out\n", "gitdir: ../link-abs\n", "gitdir: ../link-out/../out.git\n")
+	absReqs := []string{real + "/outside/out.git", real + "/srvroot-private/secret.git", real + "/srvroot.git", real + "/srvroot/../outside/out.git",
+		"link-out", "/link-out", "link-abs", "gl", "gl/.git", "gg", "link-out/../../outside/out.git", "repo.git/../link-out"}
+	c.Bound("osfs_extra_requests", absReqs)
+	shortReq := map[string]bool{"gf": true, "/gf": true, "gf/": true, "repo/../gf": true, "repo": true, "repo.git": true, "../outside/out.git": true, "/../outside/out.git": true}
+	for _, p := range absReqs {
+		shortReq[p] = true
+	}
+	servesOutside := func(st storage.Storer) bool {
+		outside := false
+		if it, err := st.IterReferences(); err == nil {
+			it.ForEach(func(r *plumbing.Reference) error {
+				if r.Name() == "refs/heads/OUTSIDE" {
+					outside = true
+				}
+				return nil
+			})
+		}
+		if cl, ok := st.(interface{ Close() error }); ok {
+			cl.Close()
+		}
+		return outside
+	}
+	// the HTTP server in front of the loader: the request path is percent-decoded, stripped of the service suffix and
+	// parsed as an endpoint before it reaches Load
+	httpGet := func(strict bool, prefix, reqPath string) (int, string) {
+		b := backend.New(transport.NewFilesystemLoader(osfs.New(real+"/srvroot"), strict))
+		b.Prefix = prefix
+		req := httptest.NewRequest(http.MethodGet, "http://h/", nil)
+		req.URL.Path = prefix + "/" + strings.TrimPrefix(reqPath, "/") + "/info/refs"
+		if strings.HasPrefix(reqPath, "//") {
+			req.URL.Path = prefix + reqPath + "/info/refs"
+		}
+		req.URL.RawQuery = "service=git-upload-pack"
+		rec := httptest.NewRecorder()
+		func() {
+			defer func() {
+				if r := recover(); r != nil {
+					rec.Code = -1
+					rec.Body.WriteString(fmt.Sprint("panic: ", r))
+				}
+			}()
+			b.ServeHTTP(rec, req)
+		}()
+		return rec.Code, rec.Body.String()
+	}
 	for gi, content := range realGitfiles {
 		if err := os.WriteFile(real+"/srvroot/gf/.git", []byte(content), 0o644); err != nil {
 			fw.Abort("write gitfile: %v", err)
@@ -184,6 +242,29 @@ func runC40(c *fw.Ctx) {
 		reqs := []string{"gf", "/gf", "gf/", "repo/../gf"}
 		if gi == 0 {
 			reqs = append(reqs, paths...)
+			reqs = append(reqs, absReqs...)
+		}
+		for _, p := range reqs {
+			for _, strict := range []bool{false, true} {
+				for _, prefix := range []string{"", "/git"} {
+					if prefix != "" && (gi != 0 || !shortReq[p]) {
+						continue
+					}
+					for _, dec := range []string{p, strings.ReplaceAll(p, "%2e", "."), "/" + p} {
+						if dec != p && !(strings.Contains(p, "%2e") || strings.HasPrefix(p, "/")) {
+							continue
+						}
+						code, body := httpGet(strict, prefix, dec)
+						c.Eval()
+						c.Class(fmt.Sprintf("osfs|http|%d|outside=%v", code, strings.Contains(body, "refs/heads/OUTSIDE")))
+						if code == -1 {
+							c.Fail("HTTP backend panics", fmt.Sprintf("osfs root %s/srvroot, GET %s/info/refs strict=%v: %s", real, fw.Q(dec), strict, body), map[string]any{"path": dec, "strict": strict})
+						} else if strings.Contains(body, "refs/heads/OUTSIDE") {
+							c.Fail("HTTP backend serves a repository outside the root", fmt.Sprintf("osfs root %s/srvroot, GET %s%s/info/refs?service=git-upload-pack strict=%v gitfile=%s: the advertisement lists refs/heads/OUTSIDE", real, prefix, fw.Q(dec), strict, fw.Q(content)), map[string]any{"path": dec, "strict": strict, "gitfile": content})
+						}
+					}
+				}
+			}
 		}
 		for _, p := range reqs {
 			for _, strict := range []bool{false, true} {
@@ -200,18 +281,7 @@ func runC40(c *fw.Ctx) {
 				if lerr != nil || st == nil {
 					continue
 				}
-				outside := false
-				if it, err := st.IterReferences(); err == nil {
-					it.ForEach(func(r *plumbing.Reference) error {
-						if r.Name() == "refs/heads/OUTSIDE" {
-							outside = true
-						}
-						return nil
-					})
-				}
-				if cl, ok := st.(interface{ Close() error }); ok {
-					cl.Close()
-				}
+				outside := servesOutside(st)
 				c.Class(fmt.Sprintf("osfs|served|outside=%v", outside))
 				if outside {
 					c.Fail("serves a repository outside the root", fmt.Sprintf("osfs root %s/srvroot, path=%s strict=%v gitfile=%s: the returned storer is the repository outside the root", real, fw.Q(p), strict, fw.Q(content)), map[string]any{"path": p, "strict": strict, "gitfile": content})
